@@ -61,7 +61,13 @@ func drawCfg(c *Chooser, allowND bool) parseCfg {
 	return cfg
 }
 
+// onParseCall, when set, is told about every library parse call the harness makes (call boundary for the ring monitor).
+var onParseCall func()
+
 func doParse(b []byte, reuse *simdjson.ParsedJson, cfg parseCfg) (*simdjson.ParsedJson, error) {
+	if f := onParseCall; f != nil {
+		f()
+	}
 	setKernel(cfg.AVX512)
 	var opts []simdjson.ParserOption
 	if !cfg.Copy {
@@ -76,7 +82,7 @@ func doParse(b []byte, reuse *simdjson.ParsedJson, cfg parseCfg) (*simdjson.Pars
 // ---- policies -------------------------------------------------------------------------------
 
 const (
-	polUniform = iota
+	polUniform       = iota
 	polProducerFirst // run-until-blocked, producer leads
 	polConsumerFirst // run-until-blocked, consumer leads
 	polBiasP02
@@ -334,6 +340,36 @@ func pipeExec(r *Run, docs [][]byte, cfgs []parseCfg, reuse bool, pol *pipePolic
 		totalLen += len(d)
 	}
 	bound := 6*(totalLen/64+8) + 64
+	stuck = schedExec(r, bound, pol, polName, func(newCall func()) {
+		var prev *simdjson.ParsedJson
+		for i, d := range docs {
+			var o parseOutcome
+			err := safely(func() error {
+				var ru *simdjson.ParsedJson
+				if reuse {
+					ru = prev
+				}
+				pj, perr := doParse(d, ru, cfgs[i])
+				o = outcomeOf(pj, perr)
+				return nil
+			})
+			if wp, ok := err.(*WalkPanic); ok {
+				o.panicV = wp
+			}
+			if o.ok {
+				prev = o.pj
+			}
+			outs = append(outs, o)
+			newCall()
+		}
+	})
+	return
+}
+
+// schedExec runs body as the calling goroutine of one or more library calls inside one bubble; every
+// pipeline hook parks and pol decides who proceeds. body must call newCall() between two library calls
+// (hand-off state starts over, the ring is reused). Returns true if the run got stuck or was abandoned.
+func schedExec(r *Run, bound int, pol *pipePolicy, polName string, body func(newCall func())) (stuck bool) {
 	mon := newRingMonitor(r)
 	steps := 0
 	fullSeen, emptySeen, maxLag := 0, 0, 0
@@ -349,34 +385,27 @@ func pipeExec(r *Run, docs [][]byte, cfgs []parseCfg, reuse bool, pol *pipePolic
 		}}
 		curSched.Store(s)
 		defer curSched.Store(nil)
-		callerDone := false
-		go func() {
-			defer func() { callerDone = true }()
-			var prev *simdjson.ParsedJson
-			for i, d := range docs {
-				var o parseOutcome
-				err := safely(func() error {
-					var ru *simdjson.ParsedJson
-					if reuse {
-						ru = prev
-					}
-					pj, perr := doParse(d, ru, cfgs[i])
-					o = outcomeOf(pj, perr)
-					return nil
-				})
-				if wp, ok := err.(*WalkPanic); ok {
-					o.panicV = wp
-				}
-				if o.ok {
-					prev = o.pj
-				}
-				outs = append(outs, o)
-				// between two parses a fresh monitor: the ring is reused but hand-off state starts over
-				if mon.maxLag > maxLag {
-					maxLag = mon.maxLag
-				}
-				*mon = *newRingMonitor(r)
+		newCall := func() {
+			if mon.maxLag > maxLag {
+				maxLag = mon.maxLag
 			}
+			if len(mon.inflight) > 0 || (mon.termSent && !mon.termRecv) {
+				r.stat("probe_residue_in_channel_at_next_call", 1)
+			}
+			*mon = *newRingMonitor(r)
+		}
+		onParseCall = newCall
+		defer func() { onParseCall = nil }()
+		callerDone := false
+		var bodyPanic any
+		go func() {
+			defer func() {
+				if rec := recover(); rec != nil {
+					bodyPanic = rec
+				}
+				callerDone = true
+			}()
+			body(newCall)
 		}()
 		for {
 			syncWait()
@@ -387,11 +416,11 @@ func pipeExec(r *Run, docs [][]byte, cfgs []parseCfg, reuse bool, pol *pipePolic
 					mon.observe(tk)
 				}
 			}
-			if r.failed() {
+			if r.failed() && !callerDone {
 				stuck = true
 				s.ReleaseAll()
 				// let things wind down if they can
-				for k := 0; k < 64 && !callerDone; k++ {
+				for k := 0; k < 256 && !callerDone; k++ {
 					syncWait()
 					if s.ReleaseAll() == 0 && !callerDone {
 						break
@@ -400,6 +429,9 @@ func pipeExec(r *Run, docs [][]byte, cfgs []parseCfg, reuse bool, pol *pipePolic
 				return
 			}
 			if callerDone {
+				if bodyPanic != nil {
+					panic(bodyPanic)
+				}
 				if len(toks) != 0 {
 					r.violate("M-leak", "hook-after-return", fmt.Sprintf("library goroutine still at %v after the call returned", toks[0]))
 					s.ReleaseAll()
@@ -443,7 +475,7 @@ func pipeExec(r *Run, docs [][]byte, cfgs []parseCfg, reuse bool, pol *pipePolic
 	r.Res.Steps += steps
 	r.stat("ring_full_seen", fullSeen)
 	r.stat("ring_empty_seen", emptySeen)
-	if maxLag >= 14 {
+	if maxLag >= 14 || mon.maxLag >= 14 {
 		r.stat("lag_ge_14", 1)
 	}
 	if harness != "" {
